@@ -115,6 +115,16 @@ theorem C12_maximal_run_finished (q : Query) (todo : List Op) (n : Nat) (s : Sys
 
 theorem C12_no_block_fixed : NoBlock true := C12_no_block
 
+/-- **C12_call_returns** (per call): from every reachable state between two calls, under every schedule, a
+    call that has not returned yet has been running for at most 9 steps of the whole system — its own
+    (call, send, receive), the search step, and the producer's receive/err/close steps.  With
+    C12_no_block (some step is always enabled) every call returns; in particular `Next` after exhaustion,
+    after an error and after `Close` returns in its first step. -/
+theorem C12_call_returns (q : Query) (todo : List Op) (s s' : Sys) (op : Op) (rest : List Op) (n : Nat)
+    (h : Reach true q todo s) (hc : s.c = .idle) (ht : s.todo = op :: rest)
+    (hr : Run true q n s s') (hh : s'.hist.length = s.hist.length) : n ≤ 9 :=
+  call_bound (inv_reach h) hc ht hr hh
+
 /-- the schedule that drives `[Next, Next, Next, Next, Next]` on a two-answer query into the
     deadlock on the pinned protocol (true = consumer step, false = producer step) -/
 def d14Schedule : List Bool :=
@@ -219,6 +229,19 @@ theorem C12_close_stops (q : Query) (todo : List Op) (s : Sys) (h : Reach true q
       simp [pStep, recvMore] at hs
       try (subst hs; simp [exitRank])
     · simp [exitRank])
+
+/-! ### reading `Err`/`Scan` between calls does not race with the producer -/
+
+/-- **C12_reads_race_free**: whenever the consumer is between two calls — the only moments at which it reads
+    `sols.err` (`Err`) and `s.env` (`Scan`) — the producer is parked at a receive, on its way out, or gone, and
+    however long it runs on its own it never reaches its write of `sols.err` nor changes `env`: those reads
+    are ordered after every write by the channel operations (no data race on `err`/`env`). -/
+theorem C12_reads_race_free (q : Query) (todo : List Op) (s s' : Sys)
+    (h : Reach true q todo s) (hc : s.c = .idle) (hr : PRun q s s') :
+    (∀ e, s'.p ≠ .failing e) ∧ s'.perr = s.perr ∧ s'.env = s.env := by
+  obtain ⟨⟨_, hp⟩, h2, h3⟩ := harmless_prun (harmless_idle (inv_reach h) hc) hr
+  refine ⟨fun e he => ?_, h2, h3⟩
+  rcases hp with hp | hp | hp | hp <;> simp [hp] at he
 
 /-! ### two Solutions of one interpreter -/
 
